@@ -64,6 +64,9 @@ META = dict(
 META["rule"] += (
     " " + 'Added after the second round of seeded changes: average path length, the closeness family and global efficiency also on directed and on disconnected graphs.')
 
+META["rule"] += (
+    " " + 'Added after the fifth round: node lists of the two-group measures in any order, the twin anywhere in its list; nsi_spreading() and nsi_spreading(alpha=0.3) on undirected graphs (node-weight dynamic range <= 1e4, rtol 1e-6); half of the cross-checked originals carry two or three link attributes, all read back from splitted_copy().')
+
 # typical weights: chosen so that the corrected degree k/tw - 1 (a factor of
 # the corrected clustering denominators) cannot vanish exactly for integer
 # or split-integer node weights - at such points the measure is 0/0
